@@ -25,7 +25,7 @@ ASSUMPTIONS = [
     "title problems are attributed to F22 only by its structural trigger (formatted title empty, a "
     "constant/keyword, or a name of the generated module's own vocabulary)",
 ]
-REQUIRED_COUNTERS = ["dsl_routes.refused", "dsl_routes.usable", "auto_titles.usable", "pool.half_dunder", 
+REQUIRED_COUNTERS = ["pool.internals", "dsl_routes.refused", "dsl_routes.usable", "auto_titles.usable", "pool.half_dunder", 
     "names.mapped", "e2e.instances", "e2e.properties_parsed_twice", "e2e.generated_module", "siblings.sets", "siblings.distinct_ok", "titles.modules_executed",
     "titles.mapped", "titles.distinct_ok", "titles.sets_without_f22_trigger", "cat.Lu", "cat.Ll", "cat.Nd", "cat.No", "cat.Zs", "cat.Po", "cat.Sm", "cat.Mn",
     "cat.Cc", "cat.Cs", "cat.Co", "cat.Cn", "cat.Lo", "cat.Lm", "pool.keywords", "pool.dunder",
@@ -321,6 +321,7 @@ def pools(ctx, sut):
         "__qualname__", "__call__", "__getitem__", "__iter__", "__len__", "__contains__",
         "__orig_bases__", "__parameters__", "__class_getitem__", "__mro__", "__name__", "__bases__",
         "__properties__", "__items__", "__getattr__", "__set_name__", "__get__", "__bool__",
+        "__debug__", "__builtins__", "__file__", "__spec__", "__loader__", "__path__", "__all__",
     })
     special = [
         "_dict", "default", "properties", "required", "description", "additionalProperties", "const",
@@ -349,6 +350,16 @@ def pools(ctx, sut):
     for idx, name in enumerate(half):
         if idx % ctx.nshards == ctx.shard:
             e2e_name(ctx, sut, name, "half_dunder")
+    # whatever names the library itself uses on a model and on its instances - discovered at run time, so
+    # that a name introduced tomorrow (a flag, a cache, a helper) is covered the day it appears
+    probe_cls = sut.parse_direct({"type": "object", "title": "Probe", "properties": {"p": {"type": "string"}}})
+    probe = probe_cls({"p": "v"})
+    internals = sorted((set(vars(probe)) | set(dir(probe)) | set(vars(probe_cls)) | set(vars(sut.Object)))
+                       - {"p"})
+    internals = [name for name in internals if not (name.startswith("__") and name.endswith("__"))]
+    for idx, name in enumerate(internals):
+        if idx % ctx.nshards == ctx.shard:
+            e2e_name(ctx, sut, name, "internals")
     renamed = ["class", "my-prop", "a b", "1st", "é", "for", "__init__", "a.b", ""]
     for idx, name in enumerate(renamed):
         if idx % ctx.nshards == ctx.shard:
